@@ -84,6 +84,8 @@ def literal_forms():
             # a string that ends in a backslash, followed by another string
             '$["a\\\\", "b"]', "$['a\\\\', 'b']", '$[?@.d == "x\\\\" || @.d == "y"]', '$[?@ in ["x\\\\", "z"]]',
             "$[?match(@, 'a\\\\') && @ != 'b']",
+            # filters nested 80 deep (below the hundred levels beyond which nothing is claimed)
+            "$" + "[?@" * 80 + ".a" + "]" * 80,
             "^[?@.a]", "^[0]", "^", "^..a", "$[?^[0].a == @.a]", "$[?@ == ^[0][0]]", "$", "", "$..", "$..*", "$.a..", "$[?@..a]"]
     return out
 
